@@ -9,6 +9,7 @@
 -/
 import Krp.Lemmas.RateStep
 import Krp.Lemmas.RateHubG
+import Krp.Props.C13
 namespace Krp
 open HubSt
 
@@ -63,6 +64,79 @@ theorem actualState_transport (h0 h : HubSt) (e0 e : HubEnv) (st0 : HubSt) (h0x 
             injection h0x with h0x; subst h0x
             exact ⟨_, rfl, rfl, rfl, rfl, rfl⟩
 
+/-- what the pending modes keep: everything that prices, and of the delegations their total and
+    whether there are any (validator removal moves stake between validators) -/
+structure SamePoolsW (s s' : Sys) : Prop where
+  bBond : s'.hub.bBond = s.hub.bBond
+  sBond : s'.hub.sBond = s.hub.sBond
+  reqB : s'.hub.reqB = s.hub.reqB
+  reqS : s'.hub.reqS = s.hub.reqS
+  bRate : s'.hub.bRate = s.hub.bRate
+  sRate : s'.hub.sRate = s.hub.sRate
+  btok : s'.hub.bsei = s.hub.bsei
+  stok : s'.hub.stsei = s.hub.stsei
+  bSupply : s'.bsei.supply = s.bsei.supply
+  sSupply : s'.stsei.supply = s.stsei.supply
+  total : totalDelegated s' = totalDelegated s
+  ne : s'.delegationsOf hubA = [] ↔ s.delegationsOf hubA = []
+
+theorem SamePools.weak {s s' : Sys} (p : SamePools s s') : SamePoolsW s s' :=
+  ⟨p.bBond, p.sBond, p.reqB, p.reqS, p.bRate, p.sRate, p.btok, p.stok, p.bSupply, p.sSupply,
+   by unfold totalDelegated; rw [p.deleg], by unfold Sys.delegationsOf; rw [p.deleg, p.delegSet]⟩
+
+theorem SamePoolsW.refl (s : Sys) : SamePoolsW s s := (SamePools.refl s).weak
+
+theorem SamePoolsW.trans' {a b c : Sys} (x : SamePoolsW a b) (y : SamePoolsW b c) : SamePoolsW a c :=
+  ⟨y.bBond.trans x.bBond, y.sBond.trans x.sBond, y.reqB.trans x.reqB, y.reqS.trans x.reqS,
+   y.bRate.trans x.bRate, y.sRate.trans x.sRate, y.btok.trans x.btok, y.stok.trans x.stok,
+   y.bSupply.trans x.bSupply, y.sSupply.trans x.sSupply, y.total.trans x.total, y.ne.trans x.ne⟩
+
+/-- the slashing check reads of the delegations only their total and whether there are any -/
+theorem actualState_transportW (h0 h : HubSt) (e0 e : HubEnv) (st0 : HubSt) (h0x : h0.actualState e0 = .ok st0)
+    (p1 : h.bBond = h0.bBond) (p2 : h.sBond = h0.sBond) (p3 : h.reqB = h0.reqB) (p4 : h.reqS = h0.reqS)
+    (p5 : h.bsei = h0.bsei) (p6 : h.stsei = h0.stsei) (p7 : h.bRate = h0.bRate) (p8 : h.sRate = h0.sRate)
+    (hsum : (e.delegations.map (·.2)).sum = (e0.delegations.map (·.2)).sum)
+    (hne : e.delegations = [] ↔ e0.delegations = []) (hs : e.supplyOf = e0.supplyOf) :
+    ∃ st, h.actualState e = .ok st ∧ st.bBond = st0.bBond ∧ st.sBond = st0.sBond ∧
+      st.bRate = st0.bRate ∧ st.sRate = st0.sRate := by
+  have hbq : h.bSupplyQ e = h0.bSupplyQ e0 := by unfold bSupplyQ; rw [p5, hs]
+  have hsq : h.sSupplyQ e = h0.sSupplyQ e0 := by unfold sSupplyQ; rw [p6, hs]
+  unfold actualState at h0x ⊢
+  rw [p1, p2, hbq, hsq, p3, p4, hsum]
+  by_cases c1 : e0.delegations = []
+  · have c1' : e.delegations = [] := hne.mpr c1
+    simp only [c1, c1', if_true] at h0x ⊢
+    injection h0x with h0x; subst h0x
+    exact ⟨h, rfl, p1, p2, p7, p8⟩
+  · have c1' : ¬ e.delegations = [] := fun hh => c1 (hne.mp hh)
+    simp only [c1, c1', if_false] at h0x ⊢
+    by_cases c2 : h0.bBond + h0.sBond = 0
+    · simp only [c2, if_true] at h0x ⊢
+      injection h0x with h0x; subst h0x
+      exact ⟨h, rfl, p1, p2, p7, p8⟩
+    · simp only [c2, if_false, bind, Except.bind] at h0x ⊢
+      generalize h0.bSupplyQ e0 = X at h0x ⊢
+      cases X with
+      | error err => cases h0x
+      | ok bs =>
+        simp only [] at h0x ⊢
+        generalize h0.sSupplyQ e0 = Y at h0x ⊢
+        cases Y with
+        | error err => cases h0x
+        | ok ss =>
+          simp only [] at h0x ⊢
+          by_cases c3 : h0.bBond + h0.sBond > (e0.delegations.map (·.2)).sum
+          · simp only [c3, if_true] at h0x ⊢
+            by_cases c4 : (e0.delegations.map (·.2)).sum <
+                mulDec (e0.delegations.map (·.2)).sum (fromRatio h0.bBond (h0.bBond + h0.sBond))
+            · simp only [c4, if_true] at h0x; cases h0x
+            · simp only [c4, if_false] at h0x ⊢
+              injection h0x with h0x; subst h0x
+              exact ⟨_, rfl, rfl, rfl, rfl, rfl⟩
+          · simp only [c3, if_false] at h0x ⊢
+            injection h0x with h0x; subst h0x
+            exact ⟨_, rfl, rfl, rfl, rfl, rfl⟩
+
 /-- the virtual start: the state a CheckSlashing at the start would have left -/
 def virt (s0 : Sys) (st0 : HubSt) : Sys := { s0 with hub := st0 }
 
@@ -73,7 +147,7 @@ def virt (s0 : Sys) (st0 : HubSt) : Sys := { s0 with hub := st0 }
 theorem recog_establishes (s0 s s' : Sys) (st0 : HubSt) (sender : Addr) (funds : List (Denom × Nat))
     (hm : HubMsg) (subs rest : List Msg)
     (hst0 : s0.hub.actualState s0.hubEnv = .ok st0)
-    (sp : SamePools s0 s) (c : ChainOK s)
+    (sp : SamePoolsW s0 s) (c0 : ChainOK s0) (c : ChainOK s)
     (btok0 : s0.hub.bsei = some bseiA) (stok0 : s0.hub.stsei = some stseiA)
     (bwf : s.bsei.WF) (swf : s.stsei.WF) (bhub : s.bsei.hub = hubA) (shub : s.stsei.hub = hubA)
     (hd : s0.delegationsOf hubA ≠ []) (hz : s0.hub.bBond + s0.hub.sBond ≠ 0)
@@ -100,16 +174,20 @@ theorem recog_establishes (s0 s s' : Sys) (st0 : HubSt) (sender : Addr) (funds :
       fun w hw => by rw [hc.1]; rw [hc.2.1] at hw; exact c.unset w hw⟩
     have hT : ((s1.hubEnv.delegations).map (·.2)).sum = totalDelegated s := by
       rw [delegations_sum s1 c1]; unfold totalDelegated; rw [hc.1]
-    have hdel : s1.hubEnv.delegations = s0.hubEnv.delegations := by
-      show s1.delegationsOf hubA = s0.delegationsOf hubA
-      unfold Sys.delegationsOf; rw [hc.1, hc.2.1, sp.deleg, sp.delegSet]
+    have hsum : ((s1.hubEnv.delegations).map (·.2)).sum = ((s0.hubEnv.delegations).map (·.2)).sum := by
+      rw [hT, delegations_sum s0 c0, sp.total]
+    have hne : s1.hubEnv.delegations = [] ↔ s0.hubEnv.delegations = [] := by
+      have e1 : s1.hubEnv.delegations = s.hubEnv.delegations := by
+        show s1.delegationsOf hubA = s.delegationsOf hubA
+        unfold Sys.delegationsOf; rw [hc.1, hc.2.1]
+      rw [e1]; exact sp.ne
     have hsup : s1.hubEnv.supplyOf = s0.hubEnv.supplyOf := by
       funext a
       show s1.supplyOf a = s0.supplyOf a
       unfold Sys.supplyOf; rw [h1'.bsei, h1'.stsei, sp.bSupply, sp.sSupply]
-    obtain ⟨st, hst, q1, q2, _, _⟩ := actualState_transport s0.hub s.hub s0.hubEnv s1.hubEnv st0 hst0
-      sp.bBond sp.sBond sp.reqB sp.reqS sp.btok sp.stok sp.bRate sp.sRate hdel hsup
-    have hd1 : s1.hubEnv.delegations ≠ [] := by rw [hdel]; exact hd
+    obtain ⟨st, hst, q1, q2, _, _⟩ := actualState_transportW s0.hub s.hub s0.hubEnv s1.hubEnv st0 hst0
+      sp.bBond sp.sBond sp.reqB sp.reqS sp.btok sp.stok sp.bRate sp.sRate hsum hne hsup
+    have hd1 : s1.hubEnv.delegations ≠ [] := fun hh => hd (hne.mp hh)
     have hz1 : s.hub.bBond + s.hub.sBond ≠ 0 := by rw [sp.bBond, sp.sBond]; exact hz
     have hbs : s1.hubEnv.supplyOf bseiA = .ok s.bsei.supply := by
       show s1.supplyOf bseiA = _
@@ -176,7 +254,7 @@ theorem recog_establishes (s0 s s' : Sys) (st0 : HubSt) (sender : Addr) (funds :
 theorem trigger_establishes (s0 s s' : Sys) (st0 : HubSt) (sender : Addr) (funds : List (Denom × Nat))
     (hm : HubMsg) (subs : List Msg)
     (hst0 : s0.hub.actualState s0.hubEnv = .ok st0)
-    (sp : SamePools s0 s) (c : ChainOK s)
+    (sp : SamePools s0 s) (c0 : ChainOK s0) (c : ChainOK s)
     (btok0 : s0.hub.bsei = some bseiA) (stok0 : s0.hub.stsei = some stseiA)
     (bwf : s.bsei.WF) (swf : s.stsei.WF) (bhub : s.bsei.hub = hubA) (shub : s.stsei.hub = hubA)
     (hd : s0.delegationsOf hubA ≠ []) (hz : s0.hub.bBond + s0.hub.sBond ≠ 0)
@@ -185,7 +263,7 @@ theorem trigger_establishes (s0 s s' : Sys) (st0 : HubSt) (sender : Addr) (funds
     (ht : IsTrigHub hm)
     (hx : s.handle (.wasm sender hubA (.hub hm) funds) = .ok (s', subs)) :
     RInv (virt s0 st0) s' (subs ++ []) :=
-  recog_establishes s0 s s' st0 sender funds hm subs [] hst0 sp c btok0 stok0 bwf swf bhub shub hd hz backB backS
+  recog_establishes s0 s s' st0 sender funds hm subs [] hst0 sp.weak c0 c btok0 stok0 bwf swf bhub shub hd hz backB backS
     (Or.inl ht) NoTrg.nil (fun _ h => by cases h) NoFlow.nil hx
 
 /-- a pending queue: still messages, then one minting / redeeming hub entry point; pools, requests,
@@ -229,7 +307,7 @@ theorem PInv.step_still (s0 s s' : Sys) (m : Msg) (rest subs : List Msg) (inv : 
 
 /-- **one message of a transaction that started with a slash pending**: either still pending, or the
     invariant of the composed theorem relative to the reported pools -/
-theorem pending_step (s0 : Sys) (st0 : HubSt)
+theorem pending_step (s0 : Sys) (st0 : HubSt) (c0 : ChainOK s0)
     (hst0 : s0.hub.actualState s0.hubEnv = .ok st0)
     (btok0 : s0.hub.bsei = some bseiA) (stok0 : s0.hub.stsei = some stseiA)
     (hd : s0.delegationsOf hubA ≠ []) (hz : s0.hub.bBond + s0.hub.sBond ≠ 0)
@@ -249,7 +327,7 @@ theorem pending_step (s0 : Sys) (st0 : HubSt)
       | nil =>
         simp only [List.nil_append, List.cons.injEq] at hq
         obtain ⟨rfl, rfl⟩ := hq
-        exact trigger_establishes s0 s s' st0 sender funds hm' subs hst0 p.pools p.chain btok0 stok0
+        exact trigger_establishes s0 s s' st0 sender funds hm' subs hst0 p.pools c0 p.chain btok0 stok0
           p.bwf p.swf p.bhub p.shub hd hz backB backS ht hx
       | cons a Qs' =>
         simp only [List.cons_append, List.cons.injEq] at hq
@@ -259,15 +337,20 @@ theorem pending_step (s0 : Sys) (st0 : HubSt)
 
 /-! ### the second pending mode: no minting / redeeming entry point anywhere in the queue
 
-  An index update (UpdateGlobalIndex, the dispatcher's DispatchRewards, BondRewards) started with a
-  slash pending: until BondRewards runs — if it ever does — everything handled leaves pools,
-  requests, supplies, stored rates and delegations alone; BondRewards recognises the slash and
-  hands over to `RInv`. -/
+  An index update (UpdateGlobalIndex, the dispatcher's DispatchRewards, BondRewards) or a validator
+  removal (RemoveValidator, Redelegations, the hub's RedelegateProxy, the Redelegate messages) started
+  with a slash pending: until BondRewards runs — if it ever does — everything handled leaves pools,
+  requests, supplies and stored rates alone and keeps the total of the delegations; BondRewards
+  recognises the slash and hands over to `RInv`. -/
 
 def PendQ : Msg → Bool
+  | .redelegate .. => true
   | .wasm _ _ (.hub .updateGlobalIndex) _ => true
   | .wasm _ _ (.hub .bondRewards) _ => true
+  | .wasm _ _ (.hub (.redelegateProxy ..)) _ => true
   | .wasm _ _ (.disp .dispatch) _ => true
+  | .wasm _ _ (.reg (.remove _)) _ => true
+  | .wasm _ _ (.reg (.redelegations _)) _ => true
   | m => Still m
 
 def AllPendQ (q : List Msg) : Prop := ∀ m ∈ q, PendQ m = true
@@ -278,8 +361,9 @@ theorem pendq_of_still (m : Msg) (h : Still m = true) : PendQ m = true := by
     cases c with
     | hub hm => cases hm <;> first | rfl | exact h
     | disp dm => cases dm <;> first | rfl | exact h
+    | reg rm => cases rm <;> first | rfl | exact h
     | _ => exact h
-  | _ => exact h
+  | _ => first | rfl | exact h
 
 theorem AllPendQ.of_still {q : List Msg} (h : AllStill q) : AllPendQ q := fun m hm => pendq_of_still m (h m hm)
 
@@ -289,20 +373,36 @@ theorem AllPendQ.append {x y : List Msg} (a : AllPendQ x) (b : AllPendQ y) : All
   · exact a m h
   · exact b m h
 
-theorem pendq_cases (m : Msg) (h : PendQ m = true) (hs : Still m = false) :
-    (∃ a b d, m = .wasm a b (.hub .updateGlobalIndex) d) ∨ (∃ a b d, m = .wasm a b (.hub .bondRewards) d) ∨
-    (∃ a b d, m = .wasm a b (.disp .dispatch) d) := by
+/-- the pending messages that are not still, by shape -/
+inductive PendShape : Msg → Prop where
+  | ugi (a b : Addr) (d : List (Denom × Nat)) : PendShape (.wasm a b (.hub .updateGlobalIndex) d)
+  | br (a b : Addr) (d : List (Denom × Nat)) : PendShape (.wasm a b (.hub .bondRewards) d)
+  | proxy (a b src : Addr) (plan : List (Addr × Nat)) (d : List (Denom × Nat)) :
+      PendShape (.wasm a b (.hub (.redelegateProxy src plan)) d)
+  | dispatch (a b : Addr) (d : List (Denom × Nat)) : PendShape (.wasm a b (.disp .dispatch) d)
+  | remove (a b v : Addr) (d : List (Denom × Nat)) : PendShape (.wasm a b (.reg (.remove v)) d)
+  | redelegations (a b v : Addr) (d : List (Denom × Nat)) : PendShape (.wasm a b (.reg (.redelegations v)) d)
+  | redel (who src dst : Addr) (amt : Nat) : PendShape (.redelegate who src dst amt)
+
+theorem pendq_cases (m : Msg) (h : PendQ m = true) (hs : Still m = false) : PendShape m := by
   cases m with
+  | redelegate who src dst amt => exact .redel who src dst amt
   | wasm a b c d =>
     cases c with
     | hub hm =>
       cases hm <;> first
-        | exact Or.inl ⟨_, _, _, rfl⟩
-        | exact Or.inr (Or.inl ⟨_, _, _, rfl⟩)
+        | exact .ugi _ _ _
+        | exact .br _ _ _
+        | exact .proxy _ _ _ _ _
         | (simp only [PendQ] at h; rw [hs] at h; cases h)
     | disp dm =>
       cases dm <;> first
-        | exact Or.inr (Or.inr ⟨_, _, _, rfl⟩)
+        | exact .dispatch _ _ _
+        | (simp only [PendQ] at h; rw [hs] at h; cases h)
+    | reg rm =>
+      cases rm <;> first
+        | exact .remove _ _ _ _
+        | exact .redelegations _ _ _ _
         | (simp only [PendQ] at h; rw [hs] at h; cases h)
     | _ => simp only [PendQ] at h; rw [hs] at h; cases h
   | _ => simp only [PendQ] at h; rw [hs] at h; cases h
@@ -311,7 +411,7 @@ theorem pendq_not_trg (m : Msg) (h : PendQ m = true) : Trg m = false := by
   by_cases hs : Still m = true
   · exact still_not_trg m hs
   · have hs' : Still m = false := by simpa using hs
-    rcases pendq_cases m h hs' with ⟨a, b, d, rfl⟩ | ⟨a, b, d, rfl⟩ | ⟨a, b, d, rfl⟩ <;> rfl
+    cases pendq_cases m h hs' <;> rfl
 
 theorem pendq_not_stake (m : Msg) (h : PendQ m = true) : isStake m = false := by
   cases m with
@@ -328,8 +428,7 @@ theorem pendq_flow (t : Addr) (m : Msg) (q : List Msg) (h : PendQ m = true) :
     simp only [List.singleton_append] at a1 a2
     rw [a1, a2, f.1, f.2]; simp
   · have hs' : Still m = false := by simpa using hs
-    rcases pendq_cases m h hs' with ⟨a, b, d, rfl⟩ | ⟨a, b, d, rfl⟩ | ⟨a, b, d, rfl⟩ <;>
-      exact flows_cons_other t _ q (fun a b tm d he => by cases he)
+    cases pendq_cases m h hs' <;> exact flows_cons_other t _ q (fun a b tm d he => by cases he)
 
 theorem AllPendQ.noTrg {q : List Msg} (h : AllPendQ q) : NoTrg q := fun m hm => pendq_not_trg m (h m hm)
 
@@ -374,18 +473,6 @@ theorem dispatch_pendq (c c' : DispSt) (self : Addr) (env : DispEnv) (sender : A
             · rcases hx' with rfl | rfl <;> rfl
           exact AllPendQ.append (AllPendQ.append p1 p2) (fun x hx' => by simp at hx'; subst hx'; rfl)
 
-/-- pending, no minting / redeeming entry point anywhere in the queue -/
-structure PInvB (s0 s : Sys) (q : List Msg) : Prop where
-  chain : ChainOK s
-  pools : SamePools s0 s
-  btok : s.hub.bsei = some bseiA
-  stok : s.hub.stsei = some stseiA
-  bwf : s.bsei.WF
-  swf : s.stsei.WF
-  bhub : s.bsei.hub = hubA
-  shub : s.stsei.hub = hubA
-  all : AllPendQ q
-
 /-- UpdateGlobalIndex moves nothing that prices, and emits reward withdrawals, the dispatcher's swap
     and its dispatch -/
 theorem ugi_keeps (h h' : HubSt) (e : HubEnv) (sender : Addr) (funds : List (Denom × Nat)) (ms : List Msg)
@@ -404,8 +491,87 @@ theorem ugi_keeps (h h' : HubSt) (e : HubEnv) (sender : Addr) (funds : List (Den
       simp only [List.mem_append, List.mem_map, List.mem_cons, List.mem_nil_iff, or_false] at hx'
       rcases hx' with ⟨dd', _, rfl⟩ | rfl | rfl <;> rfl
 
+/-- one Redelegate: the hub's stake moves between two validators; the total, and whether there is
+    any, are kept -/
+theorem redelegate_keeps (s s' : Sys) (who src dst : Addr) (amt : Nat) (subs : List Msg) (c : ChainOK s)
+    (hx : s.handle (.redelegate who src dst amt) = .ok (s', subs)) :
+    subs = [] ∧ ChainOK s' ∧ SamePoolsW s s' := by
+  simp only [Sys.handle] at hx
+  exc_norm at hx
+  exc_split at hx
+  rename_i hw hz hin hsd hnr hge
+  have hdst : dst ∈ valUniverse := by simpa using hin
+  have hsrc : src ∈ valUniverse := by
+    by_cases hv : src ∈ valUniverse
+    · exact hv
+    · have := c.outside src hv; omega
+  have hne : src ≠ dst := hsd
+  have h1 := sum_upd valUniverse s.chain.deleg src (s.chain.deleg src - amt) valUniverse_nodup
+  have h2 := sum_upd valUniverse (upd s.chain.deleg src (s.chain.deleg src - amt)) dst
+    (upd s.chain.deleg src (s.chain.deleg src - amt) dst + amt) valUniverse_nodup
+  simp only [hsrc, hdst, if_true] at h1 h2
+  rw [upd_other _ _ _ _ (fun h => hne h.symm)] at h2
+  have cok : ChainOK { s with chain := { s.chain with
+      deleg := upd (upd s.chain.deleg src (s.chain.deleg src - amt)) dst
+        (upd s.chain.deleg src (s.chain.deleg src - amt) dst + amt),
+      delegSet := upd (upd s.chain.delegSet src (decide (s.chain.deleg src - amt > 0))) dst true } } := by
+    refine ⟨fun w hw => ?_, fun w hw => ?_⟩
+    · have n1 : w ≠ src := fun h => hw (h ▸ hsrc)
+      have n2 : w ≠ dst := fun h => hw (h ▸ hdst)
+      show upd (upd s.chain.deleg src _) dst _ w = 0
+      rw [upd_other _ _ _ _ n2, upd_other _ _ _ _ n1]; exact c.outside w hw
+    · show upd (upd s.chain.deleg src _) dst _ w = 0
+      by_cases n2 : w = dst
+      · subst n2; simp [upd] at hw
+      · rw [upd_other _ _ _ _ n2]
+        by_cases n1 : w = src
+        · subst n1
+          rw [upd_same]
+          have : decide (s.chain.deleg w - amt > 0) = false := by simpa [upd, n2] using hw
+          have h' : s.chain.deleg w ≤ amt := by simpa using this
+          omega
+        · rw [upd_other _ _ _ _ n1]
+          have : s.chain.delegSet w = false := by simpa [upd, n1, n2] using hw
+          exact c.unset w this
+  refine ⟨rfl, cok, rfl, rfl, rfl, rfl, rfl, rfl, rfl, rfl, rfl, rfl, ?_, ?_⟩
+  · show (valUniverse.map (upd (upd s.chain.deleg src (s.chain.deleg src - amt)) dst
+      (upd s.chain.deleg src (s.chain.deleg src - amt) dst + amt))).sum = (valUniverse.map s.chain.deleg).sum
+    rw [upd_other _ _ _ _ (fun h => hne h.symm)]
+    omega
+  · -- there is a delegation before (the source) and after (the destination)
+    have before : s.delegationsOf hubA ≠ [] := by
+      have hset : s.chain.delegSet src = true := by
+        by_cases hh : s.chain.delegSet src = true
+        · exact hh
+        · have := c.unset src (by simpa using hh); omega
+      apply List.ne_nil_of_mem (a := (src, s.chain.deleg src))
+      unfold Sys.delegationsOf
+      simp only [if_true, List.mem_map, List.mem_filter]
+      exact ⟨src, ⟨hsrc, hset⟩, rfl⟩
+    have after : Sys.delegationsOf { s with chain := { s.chain with
+        deleg := upd (upd s.chain.deleg src (s.chain.deleg src - amt)) dst
+          (upd s.chain.deleg src (s.chain.deleg src - amt) dst + amt),
+        delegSet := upd (upd s.chain.delegSet src (decide (s.chain.deleg src - amt > 0))) dst true } } hubA ≠ [] := by
+      apply List.ne_nil_of_mem (a := (dst, _))
+      unfold Sys.delegationsOf
+      simp only [if_true, List.mem_map, List.mem_filter]
+      exact ⟨dst, ⟨hdst, by simp [upd]⟩, rfl⟩
+    exact ⟨fun h => absurd h after, fun h => absurd h before⟩
+
+/-- pending, no minting / redeeming entry point anywhere in the queue -/
+structure PInvB (s0 s : Sys) (q : List Msg) : Prop where
+  chain : ChainOK s
+  pools : SamePoolsW s0 s
+  btok : s.hub.bsei = some bseiA
+  stok : s.hub.stsei = some stseiA
+  bwf : s.bsei.WF
+  swf : s.stsei.WF
+  bhub : s.bsei.hub = hubA
+  shub : s.stsei.hub = hubA
+  all : AllPendQ q
+
 /-- one message in the second pending mode -/
-theorem PInvB.step (s0 : Sys) (st0 : HubSt)
+theorem PInvB.step (s0 : Sys) (st0 : HubSt) (c0 : ChainOK s0)
     (hst0 : s0.hub.actualState s0.hubEnv = .ok st0)
     (btok0 : s0.hub.bsei = some bseiA) (stok0 : s0.hub.stsei = some stseiA)
     (hd : s0.delegationsOf hubA ≠ []) (hz : s0.hub.bBond + s0.hub.sBond ≠ 0)
@@ -419,11 +585,13 @@ theorem PInvB.step (s0 : Sys) (st0 : HubSt)
   obtain ⟨a1, a2, a3, a4, a5, a6⟩ := static_step s s' m subs hx inv.btok inv.stok inv.bwf inv.swf inv.bhub inv.shub
   have c := inv.chain
   -- the generic continuation: pools kept, only pending messages emitted
+  have keepW : ChainOK s' → SamePoolsW s s' → AllPendQ subs → PInvB s0 s' (subs ++ rest) := by
+    intro ck sp hs
+    exact ⟨ck, inv.pools.trans' sp, a1, a2, a3, a4, a5, a6, AllPendQ.append hs hrest⟩
   have keep : SamePools s s' → AllPendQ subs → PInvB s0 s' (subs ++ rest) := by
     intro sp hs
-    exact ⟨⟨fun w hw => by rw [sp.deleg]; exact c.outside w hw,
-        fun w hw => by rw [sp.deleg]; rw [sp.delegSet] at hw; exact c.unset w hw⟩,
-      inv.pools.trans' sp, a1, a2, a3, a4, a5, a6, AllPendQ.append hs hrest⟩
+    exact keepW ⟨fun w hw => by rw [sp.deleg]; exact c.outside w hw,
+        fun w hw => by rw [sp.deleg]; rw [sp.delegSet] at hw; exact c.unset w hw⟩ sp.weak hs
   -- a call that reaches the swap / sink stubs
   have stub : ∀ (h : SameContracts s s'), s'.chain.deleg = s.chain.deleg → s'.chain.delegSet = s.chain.delegSet →
       (∀ x ∈ subs, ∃ t d a, x = Msg.bankSend swapA t d a) → PInvB s0 s' (subs ++ rest) := by
@@ -437,8 +605,8 @@ theorem PInvB.step (s0 : Sys) (st0 : HubSt)
   · have hs := handle_still s s' m subs hst hx
     exact Or.inl (keep hs.1 (AllPendQ.of_still hs.2))
   · have hst' : Still m = false := by simpa using hst
-    rcases pendq_cases m hm hst' with ⟨a, b, d, rfl⟩ | ⟨a, b, d, rfl⟩ | ⟨a, b, d, rfl⟩
-    · -- UpdateGlobalIndex
+    cases pendq_cases m hm hst' with
+    | ugi a b d =>
       have ch := handle_wasm_chain s s' _ _ _ _ subs hx
       cases handle_touch s s' _ subs hx with
       | none h hm' hs hb => exact Or.inl (stub h ch.1 ch.2 hb)
@@ -453,7 +621,7 @@ theorem PInvB.step (s0 : Sys) (st0 : HubSt)
       | reward s1 sender funds rm heq _ _ _ _ _ _ _ _ _ => injection heq with _ _ e3 _; cases e3
       | disp env sender funds dm heq _ _ _ _ _ _ _ _ => injection heq with _ _ e3 _; cases e3
       | reg s1 sender funds rm heq _ _ _ _ _ _ _ _ _ => injection heq with _ _ e3 _; cases e3
-    · -- BondRewards: the slash is recognised
+    | br a b d =>
       have ch := handle_wasm_chain s s' _ _ _ _ subs hx
       cases handle_touch s s' _ subs hx with
       | none h hm' hs hb => exact Or.inl (stub h ch.1 ch.2 hb)
@@ -461,7 +629,7 @@ theorem PInvB.step (s0 : Sys) (st0 : HubSt)
         injection heq with e1 e2 e3 e4
         subst e1; subst e2; subst e4
         right
-        exact recog_establishes s0 s s' st0 _ _ .bondRewards subs rest hst0 inv.pools c btok0 stok0
+        exact recog_establishes s0 s s' st0 _ _ .bondRewards subs rest hst0 inv.pools c0 c btok0 stok0
           inv.bwf inv.swf inv.bhub inv.shub hd hz backB backS (Or.inr rfl) hrest.noTrg
           (fun x hx'' => pendq_not_stake x (hrest x hx'')) hrest.noFlow hx
       | bsei s1 sender funds tm heq _ _ _ _ _ _ _ => injection heq with _ _ e3 _; cases e3
@@ -469,7 +637,28 @@ theorem PInvB.step (s0 : Sys) (st0 : HubSt)
       | reward s1 sender funds rm heq _ _ _ _ _ _ _ _ _ => injection heq with _ _ e3 _; cases e3
       | disp env sender funds dm heq _ _ _ _ _ _ _ _ => injection heq with _ _ e3 _; cases e3
       | reg s1 sender funds rm heq _ _ _ _ _ _ _ _ _ => injection heq with _ _ e3 _; cases e3
-    · -- DispatchRewards
+    | proxy a b src plan d =>
+      have ch := handle_wasm_chain s s' _ _ _ _ subs hx
+      cases handle_touch s s' _ subs hx with
+      | none h hm' hs hb => exact Or.inl (stub h ch.1 ch.2 hb)
+      | hub s1 sender funds hm' heq h1' _ hc hx' bb t r dd g =>
+        injection heq with e1 e2 e3 e4
+        injection e3 with e3
+        subst e1; subst e2; subst e3; subst e4
+        have pf := C13_hub_proxy_forwards _ _ _ _ _ _ _ _ hx'
+        refine Or.inl (keep ⟨by rw [pf.2.1], by rw [pf.2.1], by rw [pf.2.1], by rw [pf.2.1], by rw [pf.2.1],
+          by rw [pf.2.1], by rw [pf.2.1], by rw [pf.2.1], by rw [bb], by rw [t], ch.1, ch.2⟩ ?_)
+        intro x hx''
+        rw [pf.2.2] at hx''
+        simp only [List.mem_map] at hx''
+        obtain ⟨pp, _, rfl⟩ := hx''
+        rfl
+      | bsei s1 sender funds tm heq _ _ _ _ _ _ _ => injection heq with _ _ e3 _; cases e3
+      | stsei blk sender funds tm heq _ _ _ _ _ _ => injection heq with _ _ e3 _; cases e3
+      | reward s1 sender funds rm heq _ _ _ _ _ _ _ _ _ => injection heq with _ _ e3 _; cases e3
+      | disp env sender funds dm heq _ _ _ _ _ _ _ _ => injection heq with _ _ e3 _; cases e3
+      | reg s1 sender funds rm heq _ _ _ _ _ _ _ _ _ => injection heq with _ _ e3 _; cases e3
+    | dispatch a b d =>
       have ch := handle_wasm_chain s s' _ _ _ _ subs hx
       cases handle_touch s s' _ subs hx with
       | none h hm' hs hb => exact Or.inl (stub h ch.1 ch.2 hb)
@@ -485,6 +674,51 @@ theorem PInvB.step (s0 : Sys) (st0 : HubSt)
         exact Or.inl (keep ⟨by rw [h], by rw [h], by rw [h], by rw [h], by rw [h], by rw [h], by rw [h], by rw [h],
           by rw [bb], by rw [t], ch.1, ch.2⟩ dp.2)
       | reg s1 sender funds rm heq _ _ _ _ _ _ _ _ _ => injection heq with _ _ e3 _; cases e3
+    | remove a b v d =>
+      have ch := handle_wasm_chain s s' _ _ _ _ subs hx
+      cases handle_touch s s' _ subs hx with
+      | none h hm' hs hb => exact Or.inl (stub h ch.1 ch.2 hb)
+      | hub s1 sender funds hm' heq _ _ _ _ _ _ _ _ _ => injection heq with _ _ e3 _; cases e3
+      | bsei s1 sender funds tm heq _ _ _ _ _ _ _ => injection heq with _ _ e3 _; cases e3
+      | stsei blk sender funds tm heq _ _ _ _ _ _ => injection heq with _ _ e3 _; cases e3
+      | reward s1 sender funds rm heq _ _ _ _ _ _ _ _ _ => injection heq with _ _ e3 _; cases e3
+      | disp env sender funds dm heq _ _ _ _ _ _ _ _ => injection heq with _ _ e3 _; cases e3
+      | reg s1 sender funds rm heq h1' _ _ hx' h bb t r dd =>
+        injection heq with e1 e2 e3 e4
+        injection e3 with e3
+        subst e1; subst e2; subst e3; subst e4
+        have rv := C13_remove_validator s1 _ _ _ _ hx'
+        refine Or.inl (keep ⟨by rw [h], by rw [h], by rw [h], by rw [h], by rw [h], by rw [h], by rw [h], by rw [h],
+          by rw [bb], by rw [t], ch.1, ch.2⟩ ?_)
+        rcases rv.2.2.2.2 with he | ⟨plan, he, _⟩
+        · rw [he]; intro x hx''; cases hx''
+        · rw [he]; intro x hx''
+          simp only [List.mem_cons, List.mem_nil_iff, or_false] at hx''
+          rcases hx'' with rfl | rfl <;> rfl
+    | redelegations a b v d =>
+      have ch := handle_wasm_chain s s' _ _ _ _ subs hx
+      cases handle_touch s s' _ subs hx with
+      | none h hm' hs hb => exact Or.inl (stub h ch.1 ch.2 hb)
+      | hub s1 sender funds hm' heq _ _ _ _ _ _ _ _ _ => injection heq with _ _ e3 _; cases e3
+      | bsei s1 sender funds tm heq _ _ _ _ _ _ _ => injection heq with _ _ e3 _; cases e3
+      | stsei blk sender funds tm heq _ _ _ _ _ _ => injection heq with _ _ e3 _; cases e3
+      | reward s1 sender funds rm heq _ _ _ _ _ _ _ _ _ => injection heq with _ _ e3 _; cases e3
+      | disp env sender funds dm heq _ _ _ _ _ _ _ _ => injection heq with _ _ e3 _; cases e3
+      | reg s1 sender funds rm heq h1' _ _ hx' h bb t r dd =>
+        injection heq with e1 e2 e3 e4
+        injection e3 with e3
+        subst e1; subst e2; subst e3; subst e4
+        have rv := C13_redelegations s1 _ _ _ _ hx'
+        refine Or.inl (keep ⟨by rw [h], by rw [h], by rw [h], by rw [h], by rw [h], by rw [h], by rw [h], by rw [h],
+          by rw [bb], by rw [t], ch.1, ch.2⟩ ?_)
+        rcases rv.2.2 with he | ⟨plan, he, _⟩
+        · rw [he]; intro x hx''; cases hx''
+        · rw [he]; intro x hx''
+          simp only [List.mem_cons, List.mem_nil_iff, or_false] at hx''
+          rcases hx'' with rfl | rfl <;> rfl
+    | redel who src dst amt =>
+      obtain ⟨e1, ck, sp⟩ := redelegate_keeps s s' who src dst amt subs c hx
+      exact Or.inl (keepW ck sp (by rw [e1]; intro x hx''; cases hx''))
 
 /-- what a bSei `Send` / `SendFrom` to the hub emits: the balance mirror (still), then the hook -/
 theorem bsei_send_hook (t t' : Token) (b : Block) (rw : Res Addr) (sender : Addr) (tm : TokMsg) (ms : List Msg)
@@ -525,7 +759,7 @@ theorem stsei_send_hook (t t' : Token) (b : Block) (sender : Addr) (tm : TokMsg)
 
 /-- **the whole run of a pending queue**: at the end neither pool's true ratio is below the rate the
     State query reported at the start, and the books are within the delegations -/
-theorem pending_run (s0 : Sys) (st0 : HubSt)
+theorem pending_run (s0 : Sys) (st0 : HubSt) (c0 : ChainOK s0)
     (hst0 : s0.hub.actualState s0.hubEnv = .ok st0)
     (btok0 : s0.hub.bsei = some bseiA) (stok0 : s0.hub.stsei = some stseiA)
     (hd : s0.delegationsOf hubA ≠ []) (hz : s0.hub.bBond + s0.hub.sBond ≠ 0)
@@ -538,7 +772,7 @@ theorem pending_run (s0 : Sys) (st0 : HubSt)
     s'.hub.bBond + s'.hub.sBond ≤ totalDelegated s' ∧
     s'.hub.bsei = some bseiA ∧ s'.hub.stsei = some stseiA ∧ ChainOK s' := by
   have fin := run_inv2 (fun a b => PInv s0 a b ∨ RInv (virt s0 st0) a b)
-    (pending_step s0 st0 hst0 btok0 stok0 hd hz hz0 backB backS) n s q s' (Or.inl inv) hrun
+    (pending_step s0 st0 c0 hst0 btok0 stok0 hd hz hz0 backB backS) n s q s' (Or.inl inv) hrun
   rcases fin with p | r
   · obtain ⟨Qs, _, _, _, hq, _, _⟩ := p.shape
     cases Qs <;> simp at hq
@@ -564,7 +798,7 @@ theorem pending_run (s0 : Sys) (st0 : HubSt)
     slash is still unrecognised and the State query answers what it answered), or BondRewards ran:
     then at the end neither pool's true ratio is below the rate the State query reported at the
     start, and the books are within the delegations -/
-theorem pending_runB (s0 : Sys) (st0 : HubSt)
+theorem pending_runB (s0 : Sys) (st0 : HubSt) (c0 : ChainOK s0)
     (hst0 : s0.hub.actualState s0.hubEnv = .ok st0)
     (btok0 : s0.hub.bsei = some bseiA) (stok0 : s0.hub.stsei = some stseiA)
     (hd : s0.delegationsOf hubA ≠ []) (hz : s0.hub.bBond + s0.hub.sBond ≠ 0)
@@ -572,7 +806,7 @@ theorem pending_runB (s0 : Sys) (st0 : HubSt)
     (backB : 0 < st0.bBond ∨ s0.bsei.supply + s0.hub.reqB = 0)
     (backS : 0 < st0.sBond ∨ s0.stsei.supply + s0.hub.reqS = 0)
     (n : Nat) (s : Sys) (q : List Msg) (s' : Sys) (inv : PInvB s0 s q) (hrun : Sys.run n s q = .ok s') :
-    SamePools s0 s' ∨
+    (SamePoolsW s0 s' ∧ ChainOK s') ∨
     (st0.bRate * (s'.bsei.supply + s'.hub.reqB) ≤ s'.hub.bBond * D ∧
      st0.sRate * (s'.stsei.supply + s'.hub.reqS) ≤ s'.hub.sBond * D ∧
      s'.hub.bBond + s'.hub.sBond ≤ totalDelegated s' ∧
@@ -580,11 +814,11 @@ theorem pending_runB (s0 : Sys) (st0 : HubSt)
   have fin := run_inv2 (fun a b => PInvB s0 a b ∨ RInv (virt s0 st0) a b)
     (fun a m r a' sb h hx => by
       rcases h with p | r'
-      · exact PInvB.step s0 st0 hst0 btok0 stok0 hd hz backB backS a a' m r sb p hx
+      · exact PInvB.step s0 st0 c0 hst0 btok0 stok0 hd hz backB backS a a' m r sb p hx
       · exact Or.inr (RInv.step (virt s0 st0) a a' m r sb hz0 r' hx))
     n s q s' (Or.inl inv) hrun
   rcases fin with p | r
-  · exact Or.inl p.pools
+  · exact Or.inl ⟨p.pools, p.chain⟩
   · right
     have hbs : s0.hubEnv.supplyOf bseiA = .ok s0.bsei.supply := by
       show s0.supplyOf bseiA = _; unfold Sys.supplyOf; rw [if_pos rfl]
